@@ -122,3 +122,36 @@ package typesystem
 //@   monitor relationsBuilt
 //@     before call builtin.mapupdate:openfgav1.Relation args m, k, v : assert m == tdRelations && v != nil && v.TypeInfo != nil && v.Name == k && k == relation && v.Rewrite == rewrite
 //@     before call builtin.mapupdate:openfgav1.TypeDefinition args m, k, v : assert m == tds && v == td && k == td.GetType()
+
+// ------------------------------------------------------------------ C19: no-panic sweep (thin, safety-only contracts)
+// every index and slice expression of these functions is in range for ALL inputs, with no precondition (generated by
+// bin/sweepgen, kept because every obligation discharges; callees without contract are treated as arbitrary)
+//@ func (*TypeSystem).hasCycle(recv, a0, a1, a2, a3) (r0, r1)
+//@   property C19
+//@   option nosafety
+//@   option safety slice,index
+
+//@ func (*TypeSystem).relationInvolves(recv, a0, a1, a2, a3) (r0, r1)
+//@   property C19
+//@   option nosafety
+//@   option safety slice,index
+
+//@ func GetEdgesForExclusion(a0, a1) (r0, r1)
+//@   property C19
+//@   option nosafety
+//@   option safety slice,index
+
+//@ func NewAndValidate(a0, a1) (r0, r1)
+//@   property C19
+//@   option nosafety
+//@   option safety slice,index
+
+//@ func containsDuplicateType(a0) (r0)
+//@   property C19
+//@   option nosafety
+//@   option safety slice,index
+
+//@ func hasEntrypoints(a0, a1, a2, a3, a4) (r0, r1, r2)
+//@   property C19
+//@   option nosafety
+//@   option safety slice,index
